@@ -136,6 +136,11 @@ func (c *ShipConnection) ApprovePendingHandshake() {
 	c.pendingDecisionMux.Lock()
 	defer c.pendingDecisionMux.Unlock()
 
+	// the decision must not be applied while a handshake timer expiry or a message of the
+	// remote service is being handled: the expiry would be judged on the state after the decision
+	c.inputMux.Lock()
+	defer c.inputMux.Unlock()
+
 	state := c.getState()
 	if state != model.SmeHelloStatePendingListen {
 		// TODO: what to do if the state is different?
@@ -162,6 +167,10 @@ func (c *ShipConnection) ApprovePendingHandshake() {
 func (c *ShipConnection) AbortPendingHandshake() {
 	c.pendingDecisionMux.Lock()
 	defer c.pendingDecisionMux.Unlock()
+
+	// see ApprovePendingHandshake
+	c.inputMux.Lock()
+	defer c.inputMux.Unlock()
 
 	state := c.getState()
 	if state != model.SmeHelloStatePendingListen && state != model.SmeHelloStateReadyListen {
